@@ -24,6 +24,10 @@ for m in sorted(glob.glob(os.path.join(HERE, "seeded", "*", "meta.json"))):
     status = "caught by " + ", ".join(caught) if caught else ("NOT caught (" + ", ".join(missed) + ")" if det else "patch no longer applies")
     if d.get("superseded"):
         status += "; " + d["superseded"]
+    if d.get("history"):
+        status += "; first run: " + d["history"]
+    if d.get("rebased"):
+        status += "; rebased: " + d["rebased"]
     rows.append("| %s | %s | suite %s; demo rc %s -> %s | %s |" % (
         sid, first.replace("|", "/"), (d.get("suite_with_change") or "?").split(",")[0],
         d.get("demo_on_unchanged_tree_rc"), d.get("demo_with_change_rc"), status))
